@@ -111,3 +111,25 @@ def signed_formats(ctx, rule: str, modules: Iterable[str]) -> int:
             if re.search(r"[bhilq]", body) and fn.qual not in SIGNED_FORMAT_EXCEPTIONS:
                 chk.bad(rule, fn.qual, f"`{norm(c)[:90]}` uses the format {f!r} with a signed item", "unsigned codes (B H I L Q) for wire fields", A.loc(fn.module.relpath, c))
     return n
+
+
+def instance_from_bytes(ctx, rule: str, modules: Iterable[str]) -> int:
+    """`<value>.from_bytes(...)`: the alternative constructor is looked up on the value's dynamic class, so a bool (an int in every
+    comparison) goes through bool.from_bytes and collapses the result to True/False.  The receiver must be the class (`int`)."""
+    prog, chk = ctx.prog, ctx.chk
+    mods = set(modules)
+    n = 0
+    for fn in CG.all_functions(prog):
+        if fn.module.relpath not in mods:
+            continue
+        params = {a.arg for a in fn.node.args.args + fn.node.args.kwonlyargs}
+        for c in ast.walk(fn.node):
+            if not (isinstance(c, ast.Call) and isinstance(c.func, ast.Attribute) and c.func.attr == "from_bytes" and len(c.args) + len(c.keywords) in (1, 2, 3)):
+                continue
+            n += 1
+            r = c.func.value
+            if isinstance(r, ast.Name) and r.id != "int" and (r.id in params or r.id.islower()) and not r.id[:1].isupper():
+                # a lower-case local / parameter as receiver: an instance, not a class (CamelCase names are classes with their own from_bytes)
+                if any(isinstance(x, ast.Name) and x.id == r.id and isinstance(x.ctx, ast.Store) for x in ast.walk(fn.node)) or r.id in params:
+                    chk.bad(rule, fn.qual, f"`{norm(c)[:80]}` calls from_bytes on the value `{r.id}` itself", "int.from_bytes(...)", A.loc(fn.module.relpath, c))
+    return n
